@@ -288,7 +288,7 @@ impl Check for C01Check {
         format!(
             "Phase exhaustive: every AST with at most k nodes (k=4 quick, 5 thorough) over {} leaves (number, float, text, symbol, unit, $?, $!, $, two identifiers), {} unary constructs (arithmetic/bitwise/logical prefixes, internal accessors, empty apply, {{ }}, ^~) and {} binary constructs \
              (arithmetic, bitwise, comparison, equality, logical, pair, space list, comma list, access, apply, apply-to, conditionals, else, `;`, blank line), in size order, printed with minimal parentheses from the independent operator table (the print is re-read by the reference parser and must give the AST back), spaced layout, x 2 input values (all 7 for ASTs of at most 3 nodes) x 2 data implementations. \
-             Phase control-flow-skeletons: every AST with at most 8 nodes (9 thorough) over the constants `$!` and `1`, `!!`, `?>`, `!>`, `|>`, `&&`, `||`, `+` and explicit parentheses (conditionals inside arms, defaults and operands of each other), x 2 input values x 2 implementations. Phase random: larger ASTs from a proptest tape (depth <= 6; keyed pairs, lists, conditional chains with defaults, applied nested expressions, counter-bounded reapply loops, side-effect blocks, sequencing), spaced and tight layouts, x 3 of 7 input values x 2 implementations. \
+             Phase control-flow-skeletons: every AST with at most 8 nodes (9 thorough) over the constants `$!` and `1`, `!!`, `??`, `?>`, `!>`, `|>`, `&&`, `||`, `+` and explicit parentheses (conditionals inside arms, defaults and operands of each other), x 2 input values x 2 implementations. Phase random: larger ASTs from a proptest tape (depth <= 6; keyed pairs, lists, conditional chains with defaults, applied nested expressions, counter-bounded reapply loops, side-effect blocks, sequencing), spaced and tight layouts, x 3 of 7 input values x 2 implementations. \
              Oracle: read-back of the final current value must be structurally identical to the value a tree-walking reference evaluator assigns to the same text; a well-formed program must not be rejected, fail at run time or exceed 16x the reference's step count. \
              Programs whose meaning the reference leaves undefined (ill-formed shapes, recorded open findings such as else chains without default or list index past the end) are discarded and counted. \
              Non-trivial = judged program with >= 2 operator nodes using >= 2 construct kinds; distinct = distinct ASTs.",
